@@ -1,5 +1,6 @@
 import GlueVerif.Lemmas.C09Dispatch
 import GlueVerif.Lemmas.C09Rect
+import GlueVerif.Lemmas.C09Order
 /-!
 # C09 — a drawn region becomes a selection of exactly the points the region contains
 
@@ -8,8 +9,11 @@ Property theorems only.  Every statement is about the executable definitions in
 `Data.get_mask` on every check: `roiToState` (the dispatch, with the F9 repair), `mask`
 (`to_mask` of the state classes), `specSelected` ("the plotted position lies in the region") and
 `specOnBoundary` (the excluded boundary).  Labels are integers; the plotted position of a label is
-its index in the sorted unique category list; `none` is NaN.  All statements hold for every
-rational region parameter, every category list and every data value — nothing is bounded.
+its index in the category list **as passed** to `roi_to_subset_state` / `from_range` (position `i` ↔
+`categories[i]`); the list is duplicate free (`noDup`) but in **any order** — sorted when it comes
+from `np.unique` as in the viewers, custom-ordered for `CategoricalComponent(labels, categories=…)`;
+`none` is NaN.  All statements hold for every rational region parameter, every category list (every
+order, every number of categories) and every data value — nothing is bounded.
 -/
 namespace GlueVerif.C09
 open GlueVerif.ArrayUtil GlueVerif.C09.Lemmas
@@ -47,9 +51,10 @@ theorem from_range_positions (lo hi : Rat) (i : Nat) (h : ((i : Int) : Rat) ≠ 
 
 /-- `RangeROI` on a categorical axis (`CategoricalROI.from_range` → slice of the category list →
 `np.unique` → `searchsorted` + equality): an element is selected exactly when its category position
-lies strictly inside the range, the position `lo` excepted — for every rational range, every sorted
-duplicate-free category list (any number of categories) and every label of it. -/
-theorem range_categorical (lo hi : Rat) (cs : List Int) (hs : strictSorted cs = true) (l : Int)
+lies strictly inside the range, the position `lo` excepted — for every rational range, every
+duplicate-free category list **in any order** (any number of categories; the slice is re-sorted by
+`update_categories` before `searchsorted` looks at it) and every label of it. -/
+theorem range_categorical (lo hi : Rat) (cs : List Int) (hs : noDup cs = true) (l : Int)
     (hl : l ∈ cs) (other : Val) (oc : Option (List Int)) :
     (specOnBoundary (.range .x lo hi) (some cs) oc none ⟨.lab l, other⟩ = false →
       mask none (roiToState (.range .x lo hi) (some cs) oc false) ⟨.lab l, other⟩ =
@@ -69,8 +74,60 @@ theorem range_categorical (lo hi : Rat) (cs : List Int) (hs : strictSorted cs = 
     rw [mask_catRange none cs hs lo hi .y _ l rfl hl]
     exact halfopen_eq_open lo hi _ hb.1
 
-example : strictSorted [2, 5, 7] = true ∧ (5 : Int) ∈ [2, 5, 7] ∧
+example : noDup [2, 5, 7] = true ∧ (5 : Int) ∈ [2, 5, 7] ∧
     fromRange [2, 5, 7] (1 / 2) (5 / 2) = [5, 7] ∧ fromRange [2, 5, 7] 1 (3 / 2) = [5] := by decide +kernel
+
+/-- an unsorted list: positions 1, 2 hold the labels 2, 5; the stored categories are re-sorted -/
+example : noDup [7, 5, 2, 9] = true ∧ fromRange [7, 5, 2, 9] (1 / 2) (5 / 2) = [2, 5] ∧
+    catRoiContains (fromRange [7, 5, 2, 9] (1 / 2) (5 / 2)) 5 = true ∧
+    catRoiContains (fromRange [7, 5, 2, 9] (1 / 2) (5 / 2)) 7 = false := by decide +kernel
+
+/-- **`from_range` on an unsorted list.**  For any duplicate-free category list in any order and any
+rational `lo`, `hi`: the ROI built by `CategoricalROI.from_range` (clamped ceilings → slice →
+`update_categories` = sort/unique → `contains` = `searchsorted` + clamp + equality) contains a label of
+the list exactly when its position in the list **as passed** lies strictly inside `(lo, hi)`, the
+position `= lo` excepted; a label that is not in the list is never contained. -/
+theorem from_range_unsorted (cs : List Int) (hnd : noDup cs = true) (lo hi : Rat) (l : Int) :
+    (l ∈ cs → pos l cs ≠ lo →
+      catRoiContains (fromRange cs lo hi) l = (decide (lo < pos l cs) && decide (pos l cs < hi))) ∧
+    (l ∉ cs → catRoiContains (fromRange cs lo hi) l = false) := by
+  constructor
+  · intro hl hne
+    rw [fromRange_contains cs hnd lo hi l hl]
+    exact halfopen_eq_open lo hi _ hne
+  · intro hl
+    unfold fromRange
+    rw [catRoiContains_eq_mem _ (Lemmas.strictSorted_categories _), decide_eq_false_iff_not,
+      Lemmas.mem_categories, mem_pySlice_iff]
+    rintro ⟨i, _, _, h⟩
+    exact hl (List.mem_of_getElem? h)
+
+/-- The same for **every** list, duplicates included (the Spec the `frange` family evaluates on the
+real `from_range(...).contains(...)`): the answer is the one demanded by one of the label's positions
+in the list as passed. -/
+theorem from_range_any_list (cats : List Int) (lo hi : Rat) (l : Int) :
+    specFromRange cats lo hi l (catRoiContains (fromRange cats lo hi) l) = true :=
+  specFromRange_fromRange cats lo hi l
+
+/-- **Skipping the sort breaks it** (`decide`d witness for the seeded defect class: `from_range`
+storing `categories[lo:hi]` as given, `roi.categories = …` instead of `update_categories(…)`).
+Categories `['low', 'mid', 'high']` = labels `[1, 2, 0]` (alphabetical order high < low < mid), range
+`(-1.5, 2.5)` covers all three positions: the label at position 2 is inside the range, the repaired
+/ pinned code (`fromRange`) contains it, the unsorted variant does not — neither with the model's
+`searchsorted` (number of leading smaller elements) nor with numpy's literal binary search. -/
+theorem contains_needs_sorted :
+    let cs : List Int := [1, 2, 0]
+    let lo : Rat := -3 / 2
+    let hi : Rat := 5 / 2
+    noDup cs = true ∧ indexOf 0 cs = 2 ∧ specFromRange cs lo hi 0 true = true ∧
+    specFromRange cs lo hi 0 false = false ∧
+    catRoiContains (fromRange cs lo hi) 0 = true ∧
+    fromRangeNoSort cs lo hi = [1, 2, 0] ∧
+    catRoiContains (fromRangeNoSort cs lo hi) 0 = false ∧
+    catRoiContainsBin (fromRangeNoSort cs lo hi) 0 = false ∧
+    -- on the sorted slice both searches agree and find it
+    catRoiContainsBin (fromRange cs lo hi) 0 = true := by
+  decide +kernel
 
 /-! ## Categorical regions -/
 
@@ -165,7 +222,7 @@ the region contains the pair of category positions — for polygons, circles, el
 rectangles and (with `use_pretransform`) ranges; every pair of category lists.  No boundary
 exception is needed at the model level: the table is filled by the region's own `contains`. -/
 theorem polygon_cat_cat (r : Roi) (usePre : Bool) (hr : isPolygonLike r usePre = true)
-    (xs ys : List Int) (hsx : strictSorted xs = true) (hsy : strictSorted ys = true)
+    (xs ys : List Int) (hsx : noDup xs = true) (hsy : noDup ys = true)
     (l1 l2 : Int) (h1 : l1 ∈ xs) (h2 : l2 ∈ ys) :
     mask none (roiToState r (some xs) (some ys) usePre) ⟨.lab l1, .lab l2⟩ =
       specSelected r (some xs) (some ys) none ⟨.lab l1, .lab l2⟩ := by
@@ -198,7 +255,7 @@ polygon's boundary, the element is selected exactly when the plotted point is in
 The key lemma (`Lemmas.pli_correct`) — along a line the inside test is constant between
 consecutive crossing ordinates — is proved in full. -/
 theorem polygonised_cat_num (r : Roi) (usePre : Bool) (hr : isPolygonLike r usePre = true)
-    (cs : List Int) (hs : strictSorted cs = true) (l : Int) (hl : l ∈ cs) (v : Rat) :
+    (cs : List Int) (hs : noDup cs = true) (l : Int) (hl : l ∈ cs) (v : Rat) :
     (onPolyBoundary (roiToPolygon r) ⟨pos l cs, v⟩ = false →
       mask none (roiToState r (some cs) none usePre) ⟨.lab l, .num (some v)⟩ =
         evenOdd (roiToPolygon r) ⟨pos l cs, v⟩) ∧
@@ -249,7 +306,7 @@ theorem polygonised_cat_num (r : Roi) (usePre : Bool) (hr : isPolygonLike r useP
 /-- `PolygonalROI` with one categorical axis: the selection is exactly the set of elements whose
 plotted point lies in the polygon (the property's own statement), off the boundary; any polygon —
 open or closed vertex list, concave, self-intersecting, with edges on category positions. -/
-theorem polygon_cat_num (vs : List Pt) (usePre : Bool) (cs : List Int) (hs : strictSorted cs = true)
+theorem polygon_cat_num (vs : List Pt) (usePre : Bool) (cs : List Int) (hs : noDup cs = true)
     (l : Int) (hl : l ∈ cs) (q : Option Rat) :
     (specOnBoundary (.poly vs) (some cs) none none ⟨.lab l, .num q⟩ = false →
       mask none (roiToState (.poly vs) (some cs) none usePre) ⟨.lab l, .num q⟩ =
@@ -283,7 +340,7 @@ shears; horizontal shears leave matplotlib's rule literally unchanged, vertical 
 independence) and the axis-aligned box. -/
 theorem rect_rotated_cat_num (xmin xmax ymin ymax c s : Rat) (hu : c * c + s * s = 1) (hs : s ≠ 0)
     (hx : xmin ≤ xmax) (hy : ymin ≤ ymax) (usePre : Bool) (cs : List Int)
-    (hcs : strictSorted cs = true) (l : Int) (hl : l ∈ cs) (q : Option Rat) :
+    (hcs : noDup cs = true) (l : Int) (hl : l ∈ cs) (q : Option Rat) :
     (specOnBoundary (.rect xmin xmax ymin ymax c s) (some cs) none none ⟨.lab l, .num q⟩ = false →
       mask none (roiToState (.rect xmin xmax ymin ymax c s) (some cs) none usePre) ⟨.lab l, .num q⟩ =
         specSelected (.rect xmin xmax ymin ymax c s) (some cs) none none ⟨.lab l, .num q⟩) ∧
@@ -335,32 +392,55 @@ theorem numeric_numeric (r : Roi) (hr : r.isCategorical = false) (usePre : Bool)
 
 /-! ## Category order -/
 
-/-- Any permutation / duplication of the labels (same set of labels) gives the same sorted category
-list — hence the same category positions, the same `roiToState` and the same masks: the model reads
-a categorical column only through `categories`. -/
-theorem category_order_irrelevant (xs ys : List Int) (h : ∀ l, l ∈ xs ↔ l ∈ ys) :
-    categories xs = categories ys ∧ ∀ l, indexOf l (categories xs) = indexOf l (categories ys) := by
-  have : categories xs = categories ys := by
-    apply strictSorted_ext _ _ (Lemmas.strictSorted_categories xs) (Lemmas.strictSorted_categories ys)
-    intro l
-    rw [Lemmas.mem_categories, Lemmas.mem_categories]
-    exact h l
-  exact ⟨this, fun l => by rw [this]⟩
+/-- **The order of the category list is irrelevant beyond fixing the positions**: the selection is a
+function of the plotted positions only.  Take one region and two situations with the same axis kinds
+whose categorical axes carry *any* two duplicate-free category lists — in any order, of any length,
+even with different labels — and two elements with the same plotted coordinates (label at the same
+index of the respective list as passed / same numeric value).  Then `roi_to_subset_state` + `to_mask`
+give the same answer for both, on the boundary too.  In particular reordering the categories
+(reversing, rotating, sorting, a custom `categories=` order) changes *which labels* are selected only
+through which positions they occupy: the selected labels are exactly the labels at the selected
+positions.  (`CategoricalROI` regions select labels, not positions — `categorical_roi`.)  Sortedness
+is an internal need of `CategoricalROI.contains`, established by `update_categories`
+(`contains_needs_sorted`). -/
+theorem category_order_irrelevant (r : Roi) (hr : r.isCategorical = false)
+    (xc yc xc' yc' : Option (List Int)) (usePre : Bool) (pre : Option Affine) (e e' : Elem)
+    (hcx : catsOk xc = true) (hcy : catsOk yc = true) (hcx' : catsOk xc' = true) (hcy' : catsOk yc' = true)
+    (hkx : xc.isSome = xc'.isSome) (hky : yc.isSome = yc'.isSome)
+    (hvx : valOk xc e.x = true) (hvy : valOk yc e.y = true)
+    (hvx' : valOk xc' e'.x = true) (hvy' : valOk yc' e'.y = true)
+    (hpx : plotCoord xc e.x = plotCoord xc' e'.x) (hpy : plotCoord yc e.y = plotCoord yc' e'.y) :
+    mask pre (roiToState r xc yc usePre) e = mask pre (roiToState r xc' yc' usePre) e' :=
+  mask_positions_only r hr xc yc xc' yc' usePre pre e e' hcx hcy hcx' hcy' hkx hky hvx hvy hvx' hvy' hpx hpy
 
-example : categories [7, 2, 5, 2] = categories [5, 5, 7, 2] := by decide
+/-- e.g. `['low','mid','high']` in its natural order vs the alphabetically sorted list: position 2
+is `high` (0) in one, `mid` (2) in the other — same mask value for every region -/
+example (r : Roi) (hr : r.isCategorical = false) (q : Option Rat) :
+    mask none (roiToState r (some [1, 2, 0]) none false) ⟨.lab 0, .num q⟩ =
+      mask none (roiToState r (some [0, 1, 2]) none false) ⟨.lab 2, .num q⟩ :=
+  category_order_irrelevant r hr _ _ _ _ false none _ _ (by decide) rfl (by decide) rfl rfl rfl
+    (by simp [valOk]) rfl (by simp [valOk]) rfl (by simp [plotCoord, ArrayUtil.indexOf]) rfl
 
-/-- The category lists the harness passes satisfy the hypotheses of the theorems above. -/
-theorem categories_ok (xs : List Int) : catsOk (some (categories xs)) = true ∧
-    ∀ l ∈ xs, valOk (some (categories xs)) (.lab l) = true := by
-  refine ⟨Lemmas.strictSorted_categories xs, ?_⟩
-  intro l hl
-  simp [valOk, Lemmas.mem_categories, hl]
+/-- The category lists the harness passes satisfy the hypotheses of the theorems above: the sorted
+unique list the viewers compute (`np.unique`), and any duplicate-free list in any order together
+with its labels. -/
+theorem categories_ok (xs : List Int) :
+    (catsOk (some (categories xs)) = true ∧ ∀ l ∈ xs, valOk (some (categories xs)) (.lab l) = true) ∧
+    (noDup xs = true → catsOk (some xs) = true ∧ ∀ l ∈ xs, valOk (some xs) (.lab l) = true) := by
+  refine ⟨⟨noDup_of_strictSorted _ (Lemmas.strictSorted_categories xs), ?_⟩, fun h => ⟨h, ?_⟩⟩
+  · intro l hl
+    simp [valOk, Lemmas.mem_categories, hl]
+  · intro l hl
+    simp [valOk, hl]
+
+example : catsOk (some [7, 2, 5]) = true ∧ catsOk (some [5, 2, 5]) = false ∧
+    strictSorted [7, 2, 5] = false := by decide
 
 /-! ## The property, all paths together -/
 
 /-- **Main theorem.**  For every region, every pair of axis kinds, every category list, every
 data element and every `use_pretransform` / pretransform inside `inScope` (well-kinded inputs as
-the viewers produce them; on the one-categorical-axis polygon path the region is a polygon or a
+the viewers produce them, category lists duplicate free **in any order**; on the one-categorical-axis polygon path the region is a polygon or a
 rotated rectangle with ordered bounds — for circles / ellipses see `polygonised_cat_num`): if the element's plotted position is not on the
 region's boundary, the state built by `roi_to_subset_state` selects the element **iff** its plotted
 position lies in the region. -/
@@ -406,7 +486,7 @@ theorem roi_selection (r : Roi) (xc yc : Option (List Int)) (usePre : Bool) (pre
       | num _ => simp [valOk] at hvy
       | lab ly =>
         have hly := mem_of_contains (by simpa [valOk] using hvy : ys.contains ly = true)
-        have hsy : strictSorted ys = true := hcy
+        have hsy : noDup ys = true := hcy
         cases r with
         | categorical _ => simp [Roi.isCategorical] at hcat
         | range ori lo hi =>
@@ -435,7 +515,7 @@ theorem roi_selection (r : Roi) (xc yc : Option (List Int)) (usePre : Bool) (pre
     | num _ => simp [valOk] at hvx
     | lab lx =>
       have hlx := mem_of_contains (by simpa [valOk] using hvx : xs.contains lx = true)
-      have hsx : strictSorted xs = true := hcx
+      have hsx : noDup xs = true := hcx
       cases ey with
       | lab _ => simp [valOk] at hvy
       | num qy =>
@@ -467,12 +547,12 @@ theorem roi_selection (r : Roi) (xc yc : Option (List Int)) (usePre : Bool) (pre
     | num _ => simp [valOk] at hvx
     | lab lx =>
       have hlx := mem_of_contains (by simpa [valOk] using hvx : xs.contains lx = true)
-      have hsx : strictSorted xs = true := hcx
+      have hsx : noDup xs = true := hcx
       cases ey with
       | num _ => simp [valOk] at hvy
       | lab ly =>
         have hly := mem_of_contains (by simpa [valOk] using hvy : ys.contains ly = true)
-        have hsy : strictSorted ys = true := hcy
+        have hsy : noDup ys = true := hcy
         cases r with
         | categorical labels => exact categorical_roi labels (some xs) (some ys) rfl usePre none lx _
         | range ori lo hi =>
@@ -496,11 +576,13 @@ theorem roi_selection (r : Roi) (xc yc : Option (List Int)) (usePre : Bool) (pre
 example :
     inScope (.poly [⟨1 / 2, -1⟩, ⟨5 / 2, 1⟩, ⟨1 / 2, 3⟩]) (some [2, 5, 7]) none false none
       ⟨.lab 5, .num (some (3 / 2))⟩ = true ∧
+    inScope (.poly [⟨1 / 2, -1⟩, ⟨5 / 2, 1⟩, ⟨1 / 2, 3⟩]) (some [7, 2, 5]) none false none
+      ⟨.lab 5, .num (some (3 / 2))⟩ = true ∧
     inScope (.rect 0 2 (-1) 1 (-1) 0) none (some [1, 4]) false none ⟨.num none, .lab 4⟩ = true ∧
     inScope (.circle 1 1 2) (some [0, 1]) (some [3]) false none ⟨.lab 1, .lab 3⟩ = true ∧
     inScope (.ellipse 0 0 2 1 (3 / 5) (4 / 5)) none none true (some ⟨0, 1, 0, 1, 0, 0⟩)
       ⟨.num (some 1), .num (some 0)⟩ = true ∧
-    inScope (.range .y (1 / 2) 3) (some [0, 1]) (some [3, 9]) false none ⟨.lab 1, .lab 9⟩ = true ∧
+    inScope (.range .y (1 / 2) 3) (some [1, 0]) (some [9, 3, 4]) false none ⟨.lab 1, .lab 9⟩ = true ∧
     inScope (.rect (1 / 2) (5 / 2) (-3 / 4) (3 / 4) (3 / 5) (4 / 5)) (some [0, 1, 2, 3]) none false none
       ⟨.lab 2, .num (some (7 / 8))⟩ = true := by
   decide +kernel
